@@ -67,3 +67,27 @@ CHECKS["C08"] = dict(
                  "ReleaseCpus semantics as used by its callers: on return *from holds the n released CPUs and the result the CPUs kept"],
     stages=[dict(pkg="./pkg/cpuallocator", run="TestVerifC08", shards=16)],
 )
+
+_RESMGR_ASSUME = ["a real resource manager (cache, policy, controllers) is built in-process on a generated sysfs tree; the NRI socket, pid file and agent clients are not started",
+                  "the fake runtime applies adjustments/updates with NRI merge semantics",
+                  "map iteration order fixed to sorted through the vgen map-range rewrite; one live instance per process"]
+
+def _resmgr(pid, rule, quick, thorough, run=None, **kw):
+    d = dict(level="model_checking", rule=rule, bound=dict(quick=quick, thorough=thorough), assumptions=_RESMGR_ASSUME,
+             stages=[dict(pkg="./pkg/resmgr", run=run or ("TestVerif" + pid), shards=16,
+                          quick=dict(deadline_s=420), thorough=dict(deadline_s=3000))])
+    d.update(kw)
+    return d
+
+CHECKS["C01"] = _resmgr("C01",
+    "explicit-state BFS over NRI request histories (create/stop/remove/update/synchronize/reconfigure) on a real topology-aware resource manager per scenario (machine x configuration x container templates); "
+    "oracle after every request on told-view, cache, ExportResourceData and zones; non-trivial = distinct states with an exclusive grant and at least one other grant",
+    "8 scenarios, depth 5", "12 scenarios, depth 6")
+CHECKS["C03"] = _resmgr("C03",
+    "same frame as C01; oracle: per-pool capacity ledger, non-negative Available, non-empty cpusets, documented exclusive-CPU eligibility (reference model written from the docs), cpu.shares encoding; "
+    "non-trivial = states with at least two live containers",
+    "8 scenarios, depth 5", "12 scenarios, depth 6")
+CHECKS["C05"] = _resmgr("C05",
+    "same frame as C01; oracle: told-view (creation adjustment + returned and pushed updates, NRI merge semantics) equals the cache for every live container, nothing pending, "
+    "adjustment describes only the created container, at most one update per container, no update to stopped/removed containers; non-trivial = states with at least two live containers",
+    "8 scenarios, depth 5", "12 scenarios, depth 6")
